@@ -26,7 +26,17 @@ RULE = ("op histories (wf[i]=v, wf[a:b]=v, bind incl. empty / foreign-only maps,
         "constructor-only cases of every length 0..9, dicke_state for all (n,k) up to the tier's "
         "width plus invalid requests, the Gosper step on random integers, flip_amplitudes on index vectors (list, tuple, "
         "ndarray, column, view, complex), hand-made amplitude files read by name / file object / pathlib.Path; non-trivial: a history with >=1 rejected and >=1 accepted op, a Dicke state with 1<k<n, "
-        "a flip of >=4 entries, a load/save of a complex vector; distinct = distinct canonical JSON of the case")
+        "a flip of >=4 entries, a load/save of a complex vector; NUMBER TYPES: copies of every history stream (numeric, symbolic, "
+        "aliasing, boundary, shared-storage) in which the constructor's entries are Python int / bool / Fraction / sympy Rational / "
+        "Float / Integer / numpy float16 / float32 / float64 / complex64 / complex128 / int8 / int64 / bool scalars (one type, or one "
+        "per entry) or ONE numpy array of dtype complex64 / float32 / float64 / float16 / int64 / int32 / int8 / uint8 / bool / "
+        "clongdouble / object (Fractions, Rationals), every assigned value (scalar, list, typed array), every bind-map value and "
+        "every integer index (numpy int8 / uint8 / int16 / int64 / intp, sympy Integer) has such a type - each used only where it "
+        "holds the value exactly and the unchanged library accepts it, so accepted and rejected steps stay what they were; every "
+        "container type x normalised / unnormalised / basis / uniform vectors; every value type x accepted / rejected assignment "
+        "and binding on numeric and symbolic objects; flip_amplitudes on float32 / complex64 / uint8 / int8 / Fraction / Integer / "
+        "range vectors; dicke_state with the qubit count as numpy int / Fraction / Integer / bool and a bool weight; amplitude files "
+        "with integer literals; distinct = distinct canonical JSON of the case")
 TRUSTED = [
     "np.shares_memory(a, b) is exact overlap of two ndarrays; equal data pointer + shape + strides + dtype = the same cells",
     "np.isclose(s, 1.0) <=> |s-1| <= 1e-8+1e-5 (modelled by isClose; theorems hold for every predicate `close`)",
@@ -43,12 +53,26 @@ TRUSTED = [
     "Matrix.__setitem__ with int and bare-slice keys behaves as in sympy 1.9 (key2ij/copyin_matrix: a bare slice is read as a "
     "(row, col) pair; shape errors are raised before anything is written); Matrix.copy() / ndarray.copy() are independent copies",
     "1/np.sqrt(counter) squared is 1/counter within 1e-12 (Dicke amplitude; the model carries the probabilities 1/counter)",
+    "number types: complex(x) of a Python int / bool / Fraction, a sympy number, a numpy scalar of any real or complex dtype is the number "
+    "x stands for (exactly, for the values generated: a type is only used where it holds the value exactly), and numpy converts an "
+    "array of any such dtype to complex128 element by element; the model is sent the VALUES, so it answers typed histories unchanged",
 ]
 ASSUMPTIONS = [
     "symbolic entries of the model are linear forms c + sum c_i*x_i with Gaussian-rational coefficients; non-linear entries "
     "(cos(t), x*y, x**2) are exercised by the oracle only",
     "slices are generated with step None; bind maps never map a symbol to an expression containing another key of the same map",
     "Python ints in the Gosper step are modelled by Nat (the value is always >= 1 there)",
+    "number types (established on the unchanged library): a numeric amplitude / assigned value / bind value may be a Python int, float, "
+    "complex, a Fraction, a sympy number or a numpy complex64 / integer scalar everywhere, and a Python / numpy bool or a numpy float "
+    "scalar (float16/32/64, complex128) where the object is array-backed or the constructor argument holds numbers only; next to "
+    "symbols (Matrix-backed object, bind map, mixed list) numpy float scalars are refused by sympy 1.9 under numpy 2 with ValueError "
+    "(object unchanged) - out of domain; float32 / float16 / complex64 values are used only where they hold the number exactly",
+    "EXCLUDED (defect of the unchanged library, reported): a Python / numpy bool next to symbols - wf = Wavefunction([x, .5, .5, .5]); "
+    "wf[1] = True is accepted and stored as sympy's BooleanTrue, which _check_normalization does not count (the numeric entries then "
+    "exceed 1); on an array-backed object the same assignment is 1.0 and is rejected.  bind({x: True}) raises TypeError",
+    "dicke_state: the qubit count may be a numpy integer / Fraction / sympy Integer / bool (zero_state casts it), the weight an int or "
+    "bool; a float count, a numpy-integer weight (ValueError) and a narrow numpy-integer count whose 2**n leaves the type "
+    "(np.uint8(8): IndexError, np.int8(7): ValueError - dicke_state itself keeps the uncast count) are refused: not generated",
 ]
 
 SIG_MATRIX_SLICE = "matrix-slice-rejected-modified"
@@ -98,8 +122,86 @@ def _case_numbers(obj):
     return out
 
 
-def _to_py(e, exact, sympy):
-    """JSON entry -> python value handed to the library"""
+# NUMBER TYPES (harness/props/c12.py, class "number type / array dtype").  A numeric JSON entry may be handed to the library as an
+# object of one of these types; the VALUE is the one the default route (Python float / complex, or exact sympy numbers) hands
+# over - a type is used only where it holds that value exactly - so the model and every sentence of the oracle stay as they are.
+#   everywhere (ndarray- and Matrix-backed objects, bind maps, lists next to symbols):
+ANY_TYPES = ["int", "Fraction", "Rational", "Float", "Integer", "c64", "i64", "i8"]
+#   only where the library works on a numpy array (established on the unchanged library: sympy 1.9 cannot sympify numpy float
+#   scalars under numpy 2 - ValueError - and turns bools into BooleanTrue / BooleanFalse):
+ARR_TYPES = ["f32", "f64", "c128", "bool", "np.bool_", "f16"]
+VAL_TYPES = ANY_TYPES + ARR_TYPES
+IDX_TYPES = ["i64", "i8", "u8", "i16", "intp", "Integer"]
+VEC_TYPES = (["list:" + t for t in VAL_TYPES] + ["tuple:" + t for t in ("Fraction", "f32", "int", "c64")] + ["list:mixed"] +
+             ["arr:complex64", "arr:float32", "arr:float64", "arr:float16", "arr:int64", "arr:int32", "arr:int8", "arr:uint8",
+              "arr:bool", "arr:obj-Fraction", "arr:obj-Rational", "arr:clongdouble"])
+_MIXED_ORDER = ["Fraction", "f32", "int", "c64", "Float", "i64", "bool", "f64", "Rational", "np.bool_", "c128", "Integer", "i8", "f16"]
+
+
+def _fits(x, t):
+    """is the double x exactly representable in the numpy float type t"""
+    import warnings
+    with warnings.catch_warnings():
+        warnings.simplefilter("ignore")
+        y = float(t(x))
+    return y == x
+
+
+def _typed_number(re_, im_, exact, ty, arr_ok, salt=0):
+    """the Gaussian rational re_ + i im_ as an object of type ty, or None where ty cannot hold exactly the value the default route
+    hands over (floats of re_, im_; the rationals themselves for the exact route) or is not accepted at this place"""
+    import numpy as np
+    import sympy
+    if ty == "mixed":
+        for j in range(len(_MIXED_ORDER)):
+            v = _typed_number(re_, im_, exact, _MIXED_ORDER[(salt + j) % len(_MIXED_ORDER)], arr_ok)
+            if v is not None:
+                return v
+        return None
+    if ty in ARR_TYPES and not arr_ok:
+        return None
+    fr, fi = float(re_), float(im_)
+    real = im_ == 0
+    whole = real and re_.denominator == 1
+    if ty == "int":
+        return int(re_) if whole else None
+    if ty == "Integer":
+        return sympy.Integer(int(re_)) if whole else None
+    if ty in ("bool", "np.bool_"):
+        if real and re_ in (0, 1):
+            return bool(re_) if ty == "bool" else np.bool_(bool(re_))
+        return None
+    if ty in ("i64", "i8"):
+        if whole and (abs(re_) < 2 ** 62 if ty == "i64" else -128 <= re_ <= 127):
+            return (np.int64 if ty == "i64" else np.int8)(int(re_))
+        return None
+    if ty == "Fraction":
+        # (the float route hands over float(re_): the Fraction of THAT double; the exact route the rational itself)
+        return (re_ if exact else Fraction(fr)) if real else None
+    if ty == "Rational":
+        if exact:
+            return sympy.Rational(re_.numerator, re_.denominator) + sympy.I * sympy.Rational(im_.numerator, im_.denominator)
+        a, b = Fraction(fr), Fraction(fi)
+        return sympy.Rational(a.numerator, a.denominator) + sympy.I * sympy.Rational(b.numerator, b.denominator)
+    if ty == "Float":
+        return sympy.Float(fr) if real else sympy.Float(fr) + sympy.I * sympy.Float(fi)
+    if ty in ("f32", "f16", "f64"):
+        t = {"f32": np.float32, "f16": np.float16, "f64": np.float64}[ty]
+        return t(fr) if real and _fits(fr, t) else None
+    if ty == "c64":
+        return np.complex64(complex(fr, fi)) if _fits(fr, np.float32) and _fits(fi, np.float32) else None
+    if ty == "c128":
+        return np.complex128(complex(fr, fi))
+    return None
+
+
+def _to_py(e, exact, sympy, ty=None, arr_ok=False, salt=0):
+    """JSON entry -> python value handed to the library (ty: one of VAL_TYPES / "mixed", used where it holds the value exactly)"""
+    if ty and _is_num(e):
+        re_, im_ = _frac_pair(e)
+        v = _typed_number(re_, im_, exact, ty, arr_ok, salt)
+        if v is not None:
+            return v
     if _is_num(e):
         re_, im_ = _frac_pair(e)
         if exact:
@@ -128,6 +230,41 @@ def _to_py(e, exact, sympy):
             if ci != 0:
                 expr += float(ci) * sympy.I * s
     return expr
+
+
+def _typed_array(entries, exact, dtype):
+    """all-numeric JSON entries as ONE numpy array of the given dtype, or None where the dtype cannot hold every value exactly"""
+    import numpy as np
+    import sympy
+    pairs = [_frac_pair(e) for e in entries]
+    if dtype in ("obj-Fraction", "obj-Rational"):
+        if any(im_ != 0 for _, im_ in pairs):
+            return None
+        a = np.empty(len(pairs), dtype=object)
+        for i, (re_, _) in enumerate(pairs):
+            q = re_ if exact else Fraction(float(re_))
+            a[i] = q if dtype == "obj-Fraction" else sympy.Rational(q.numerator, q.denominator)
+        return a
+    dt = np.dtype(dtype)
+    if dt.kind == "c":
+        part = {"complex64": np.float32, "clongdouble": np.longdouble}.get(dtype, np.float64)
+        if not all(_fits(float(re_), part) and _fits(float(im_), part) for re_, im_ in pairs):
+            return None
+        return np.array([complex(float(re_), float(im_)) for re_, im_ in pairs], dtype=dt)
+    if any(im_ != 0 for _, im_ in pairs):
+        return None
+    if dt.kind == "f":
+        if not all(_fits(float(re_), dt.type) for re_, _ in pairs):
+            return None
+        return np.array([float(re_) for re_, _ in pairs], dtype=dt)
+    if any(re_.denominator != 1 for re_, _ in pairs):
+        return None
+    if dt.kind == "b":
+        return np.array([bool(re_) for re_, _ in pairs], dtype=bool) if all(re_ in (0, 1) for re_, _ in pairs) else None
+    info = np.iinfo(dt)
+    if not all(info.min <= re_ <= info.max for re_, _ in pairs):
+        return None
+    return np.array([int(re_) for re_, _ in pairs], dtype=dt)
 
 
 # ------------------------------------------------------------------ snapshots of the real object
@@ -361,6 +498,16 @@ def corpus():
                  {"op": "set", "i": 1, "val": ["500008/1000000", 0], "np": True}]},
         # numeric entries a few parts in a million above 1 next to a symbol: nothing to create
         {"kind": "ops", "exact": True, "vec": [_X("x"), ["3/5", 0], [0, "800002/1000000"], [0, 0]], "ops": []},
+        # ---- number types: a float32 array, then a complex64 value through a uint8 index (accepted), a Python int (rejected), a
+        #      complex64 array through a slice; a symbolic vector bound with Fractions / a numpy integer; an int8 array [1, 1] is refused
+        {"kind": "ops", "exact": False, "container": "ndarray", "ty": "arr:float32", "vec": [["1/2", 0]] * 4,
+         "ops": [{"op": "set", "i": 1, "val": [0, "1/2"], "vty": "c64", "ity": "u8"}, {"op": "set", "i": 0, "val": [1, 0], "vty": "int"},
+                 {"op": "slice", "start": 0, "stop": 2, "vals": [[0, "-1/2"], ["-1/2", 0]], "vty": "arr:complex64"},
+                 {"op": "slice", "start": 2, "stop": 4, "vals": [[1, 0], [0, 0]], "vty": "arr:bool"}]},
+        {"kind": "ops", "exact": True, "ty": "list:Fraction", "vec": [_X("x"), ["1/2", 0], _X("y", 2), ["1/2", 0]],
+         "ops": [{"op": "bind", "map": [["x", ["1/2", 0]]], "vty": "Fraction"}, {"op": "bind", "map": [["y", [1, 0]]], "vty": "i64"},
+                 {"op": "bind", "map": [["y", ["1/4", 0]]], "vty": "Float", "on": 1}, {"op": "set", "i": 3, "val": ["-1/2", 0], "vty": "f32"}]},
+        {"kind": "ops", "exact": False, "container": "ndarray", "ty": "arr:int8", "vec": [[1, 0], [1, 0]], "ops": []},
     ] + _corpus_drift() + _corpus_shared() + [
         {"kind": "dicke", "n": 4, "k": 2},
         {"kind": "dicke", "n": 3, "k": 3},
@@ -1210,6 +1357,70 @@ EXPR_CASES = [
 ]
 
 
+def _typed(rng, case, vec_prob=0.8):
+    """the same history with its numbers handed over in other NUMBER TYPES: the constructor's entries (one type for all, one per
+    entry, or ONE typed numpy array), every assigned value (scalars, lists, typed arrays), every value of a bind map, the integer
+    indices.  A type is used only where it holds the value exactly and where the unchanged library accepts it, so the history
+    means what it meant."""
+    if case.get("container") in ("strided", "ndarray_obj", "matrix"):
+        case.pop("container")
+    if rng.random() < vec_prob:
+        numeric = all(_is_num(e) for e in case["vec"])
+        case["ty"] = rng.choice(VEC_TYPES if numeric else [t for t in VEC_TYPES if not t.startswith("arr:")])
+        if case["ty"].startswith("arr:"):
+            case["container"] = "ndarray"
+    for op in case["ops"]:
+        if op["op"] in ("set", "slice", "bind") and rng.random() < 0.85:
+            pool = VAL_TYPES + ["mixed"] + (["arr:complex64", "arr:float32", "arr:int8", "arr:bool", "arr:obj-Fraction", "arr:float64"]
+                                            if op["op"] == "slice" and "vals" in op else [])
+            op["vty"] = rng.choice(pool)
+        if op["op"] == "set" and not op.get("np") and rng.random() < 0.4:
+            op["ity"] = rng.choice(IDX_TYPES)
+    return case
+
+
+def _gen_typed(rng, big):
+    cases = []
+    k = 4 if big else 1
+    # dyadic vectors first: every value fits float32 / complex64 / float16 / the small integer types
+    for _ in range(60 * k):
+        for _try in range(20):
+            c = _gen_numeric_ops(rng, big)
+            if all(_dyadic(x) and x.denominator <= 16 for x in _case_numbers({"v": c["vec"], "o": c["ops"]})):
+                break
+        cases.append(_typed(rng, c, 1.0))
+    for _ in range(40 * k):
+        cases.append(_typed(rng, _scatter(rng, _gen_numeric_ops(rng, big))))
+    for _ in range(60 * k):
+        cases.append(_typed(rng, _scatter(rng, _gen_symbolic_ops(rng, big))))
+    for _ in range(40 * k):
+        cases.append(_typed(rng, _gen_alias_ops(rng, big)))
+    for _ in range(40 * k):
+        cases.append(_typed(rng, _gen_near_ops(rng, big)))
+    for _ in range(30 * k):
+        cases.append(_typed(rng, _gen_shared_ops(rng, big)))
+    # constructor only: every container type x (normalised / clearly not / basis state / uniform), lengths 1..8 and 3, 0
+    for ty in VEC_TYPES:
+        for vec in ([[1, 0], [0, 0]], [[0, 0], [0, 1], [0, 0], [0, 0]], [["1/2", 0]] * 4, [["1/2", 0], [0, "1/2"], ["-1/2", 0], [0, "-1/2"]],
+                    [[1, 0], [1, 0]], [["1/2", 0]] * 3 + [[1, 0]], [["1/2", 0]] * 2, [[1, 0], [0, 0], [0, 0]], [[0, 0]] * 4, [[1, 0]],
+                    [["1/4", 0]] * 16, [["3/5", 0], [0, "4/5"]], [["3/5", 0], ["3/5", 0]]):
+            cases.append({"kind": "ops", "exact": False, "vec": vec, "container": "ndarray" if ty.startswith("arr:") else "list", "ty": ty,
+                          "ops": [{"op": "set", "i": 0, "val": vec[0], "vty": rng.choice(VAL_TYPES)},
+                                  {"op": "set", "i": len(vec) - 1, "val": [1, 0], "vty": rng.choice(VAL_TYPES), "ity": rng.choice(IDX_TYPES)},
+                                  {"op": "flip"}]})
+    # every value type x (accepted rephasing / rejected value / value that completes the norm) on a numeric and on a symbolic object,
+    # and as the value of a bind map
+    for vt in VAL_TYPES + ["mixed"]:
+        for val, i in (([0, 0], 2), (["-1/2", 0], 1), ([1, 0], 0), ([0, "1/2"], 3), (["1/2", 0], 2), ([0, 1], 2)):
+            cases.append({"kind": "ops", "exact": False, "vec": [["1/2", 0]] * 4, "ops": [
+                {"op": "set", "i": i, "val": val, "vty": vt}, {"op": "slice", "start": 0, "stop": 2, "val": val, "vty": vt},
+                {"op": "slice", "start": 2, "stop": 4, "vals": [val, ["1/2", 0]], "vty": vt}, {"op": "reload"}]})
+            cases.append({"kind": "ops", "exact": rng.random() < 0.5, "vec": [_X("x"), ["1/2", 0], ["1/2", 0], _X("y", Fraction(1, 2))], "ops": [
+                {"op": "set", "i": i, "val": val, "vty": vt}, {"op": "bind", "map": [["x", val]], "vty": vt},
+                {"op": "bind", "map": [["y", [1, 0]], ["x", ["1/2", 0]]], "vty": vt}, {"op": "set", "i": 1, "val": val, "vty": vt}]})
+    return cases
+
+
 def generate(rng, tier):
     big = tier == "thorough"
     cases = []
@@ -1309,9 +1520,35 @@ def generate(rng, tier):
             scaled = [_scale(z, f) for z in vec]
             if _verdict_numeric(_numsum(scaled)) is not None:
                 c["real"], c["imag"] = [rat(z[0]) for z in scaled], [rat(z[1]) for z in scaled]
+        if rng.random() < 0.4:   # whole numbers written as JSON integers (numpy then reads an integer array)
+            c["json_ints"] = True
         cases.append(c)
+    # ---- NUMBER TYPES of everything the quantifier covers (a fresh generator: the streams above stay as they were)
+    import random as _random
+    r2 = _random.Random(rng.getrandbits(64))
+    cases += _gen_typed(r2, big)
+    for how in FLIP_TYPED:
+        for n in [1, 2, 4, 8, 16, 64] + ([128, 256] if how != "i8" else [128]):
+            cases.append({"kind": "flip", "n": n, "as": how})
+    # the number of qubits as a numpy integer / Fraction / sympy Integer / bool, the weight as a bool (accepted by the unchanged
+    # library: zero_state casts with a warning; NOT accepted: a float n, a numpy-integer weight, a narrow numpy integer n whose
+    # 2**n leaves the type - they raise)
+    for nty in DICKE_N_TYPES:
+        top = {"u8": 7, "i8": 6, "bool": 1}.get(nty, 8)
+        for n in sorted({1, 2, top - 1, top} - {0}):
+            for kk in sorted({0, 1, n // 2, n}):
+                c = {"kind": "dicke", "n": n, "k": kk, "n_ty": nty}
+                if kk in (0, 1) and nty != "Integer" and r2.random() < 0.5:   # (True > sympy.Integer(n) is a TypeError of sympy's)
+                    c["k_ty"] = "bool"
+                cases.append(c)
+    for _ in range(12):
+        n = r2.randrange(1, 8)
+        cases.append({"kind": "dicke", "n": n, "k": r2.choice([n + 1, -1, n + 2]), "n_ty": r2.choice(["i64", "Fraction", "Integer", "i32"])})
     return cases
 
+
+FLIP_TYPED = ["f32", "c64", "u8", "i8", "f64", "Fraction", "Integer", "range"]
+DICKE_N_TYPES = ["i64", "i32", "u8", "i8", "Fraction", "Integer", "bool", "intp"]
 
 _SEEN_OUTCOMES = {}  # canonical case -> (some op accepted, some op rejected); filled by run_impl
 
@@ -1335,9 +1572,21 @@ def nontrivial(c):
 
 # ------------------------------------------------------------------ running the real code
 def _build_vec(c, np, sympy):
-    """the constructor argument in the container the case asks for (a fresh one per call: nothing else refers to it)"""
-    vals = [_to_py(e, c["exact"], sympy) for e in c["vec"]]
+    """the constructor argument in the container the case asks for (a fresh one per call: nothing else refers to it).
+    c["ty"] (one of VEC_TYPES): the NUMBER TYPE of the entries / the dtype of the array, used where it holds the values exactly"""
+    ty = c.get("ty")
     how = c.get("container", "list")
+    if ty and how in ("list", "tuple", "ndarray"):
+        numeric = all(_is_num(e) for e in c["vec"])
+        if ty.startswith("arr:"):
+            a = _typed_array(c["vec"], c["exact"], ty[4:]) if numeric and c["vec"] else None
+            if a is not None:
+                return a
+        else:
+            form, t = ty.split(":")
+            vals = [_to_py(e, c["exact"], sympy, t, numeric, i) for i, e in enumerate(c["vec"])]
+            return tuple(vals) if form == "tuple" or how == "tuple" else vals
+    vals = [_to_py(e, c["exact"], sympy) for e in c["vec"]]
     if how == "tuple":
         return tuple(vals)
     if how == "ndarray":
@@ -1354,6 +1603,17 @@ def _build_vec(c, np, sympy):
     if how == "matrix":
         return sympy.Matrix(vals)
     return vals
+
+
+def _typed_index(i, ity, np, sympy):
+    """the integer index i as an object of the index type ity (where that type holds it)"""
+    if ity == "Integer":
+        return sympy.Integer(i)
+    t = {"i64": np.int64, "i8": np.int8, "u8": np.uint8, "i16": np.int16, "intp": np.intp}.get(ity)
+    if t is None:
+        return i
+    info = np.iinfo(t)
+    return t(i) if info.min <= i <= info.max else i
 
 
 CLONE_SAME = ["amplitudes", "view", "reshape", "source", "held"]      # the new object is to hold what the source holds
@@ -1440,15 +1700,24 @@ def _apply_op(W, np, sympy, wf, op, exact, ctx=None):
                 val = np.complex128(val) if isinstance(val, complex) else np.float64(val)
             wf[np.int64(op["i"])] = val
         elif op["op"] == "set":
-            wf[op["i"]] = _to_py(op["val"], exact, sympy)
+            arr_ok = isinstance(_storage(wf), np.ndarray)
+            wf[_typed_index(op["i"], op.get("ity"), np, sympy)] = _to_py(op["val"], exact, sympy, op.get("vty"), arr_ok)
         elif op["op"] == "slice":
             key = slice(op.get("start"), op.get("stop"))
+            arr_ok = isinstance(_storage(wf), np.ndarray)
+            vty = op.get("vty")
             if "vals" in op:
-                wf[key] = [_to_py(v, exact, sympy) for v in op["vals"]]
+                typed = None
+                if vty and vty.startswith("arr:") and arr_ok and op["vals"] and all(_is_num(v) for v in op["vals"]):
+                    typed = _typed_array(op["vals"], exact, vty[4:])   # the new values as ONE array of that dtype
+                if typed is None:
+                    vt = None if (vty or "").startswith("arr:") else vty
+                    typed = [_to_py(v, exact, sympy, vt, arr_ok, j) for j, v in enumerate(op["vals"])]
+                wf[key] = typed
             else:
-                wf[key] = _to_py(op["val"], exact, sympy)
+                wf[key] = _to_py(op["val"], exact, sympy, None if (vty or "").startswith("arr:") else vty, arr_ok)
         elif op["op"] == "bind":
-            m = {sympy.Symbol(nm): _to_py(v, exact, sympy) for nm, v in op["map"]}
+            m = {sympy.Symbol(nm): _to_py(v, exact, sympy, op.get("vty"), False, j) for j, (nm, v) in enumerate(op["map"])}
             before = _snap(wf, np, sympy)
             new = wf.bind(m)
             extra["orig_intact"] = _snap(wf, np, sympy)["exact"] == before["exact"] or new is wf
@@ -1592,7 +1861,19 @@ def run_impl(c):
         def build():
             with warnings.catch_warnings():
                 warnings.simplefilter("ignore")
-                return W.Wavefunction.dicke_state(c["n"], c["k"])
+                n_arg, k_arg = c["n"], c["k"]
+                nty = c.get("n_ty")
+                if nty in ("i64", "i32", "u8", "i8", "intp"):
+                    n_arg = {"i64": np.int64, "i32": np.int32, "u8": np.uint8, "i8": np.int8, "intp": np.intp}[nty](n_arg)
+                elif nty == "Fraction":
+                    n_arg = Fraction(n_arg)
+                elif nty == "Integer":
+                    n_arg = sympy.Integer(n_arg)
+                elif nty == "bool" and n_arg in (0, 1):
+                    n_arg = bool(n_arg)
+                if c.get("k_ty") == "bool" and k_arg in (0, 1):
+                    k_arg = bool(k_arg)
+                return W.Wavefunction.dicke_state(n_arg, k_arg)
         try:
             wf = _with_timeout(build)
         except ValueError as e:
@@ -1637,13 +1918,23 @@ def run_impl(c):
             first = np.repeat(np.arange(n), 2)[::2]
         elif how == "complex":
             first = [complex(i, -i) for i in range(n)]
+        elif how in ("f32", "f64", "u8", "i8"):
+            first = np.arange(n).astype({"f32": np.float32, "f64": np.float64, "u8": np.uint8, "i8": np.int8}[how])
+        elif how == "c64":
+            first = np.array([complex(i, -i) for i in range(n)], dtype=np.complex64)
+        elif how == "Fraction":
+            first = [Fraction(i) for i in range(n)]
+        elif how == "Integer":
+            first = tuple(sympy.Integer(i) for i in range(n))
+        elif how == "range":
+            first = range(n)
         try:
             a = W.flip_amplitudes(first)
         except (TypeError, ValueError, IndexError) as e:
             return {"err": _err(e)}
         raw = a
         flat = np.asarray(a).reshape(-1)
-        if how == "complex" and any(complex(x).imag != -complex(x).real for x in flat):
+        if how in ("complex", "c64") and any(complex(x).imag != -complex(x).real for x in flat):
             return {"res": ["imaginary parts do not follow the real parts"]}
         a = [int(complex(x).real) for x in flat]
         res = {"res": a}
@@ -1653,7 +1944,7 @@ def run_impl(c):
         # results are values / arguments are not modified: scribble over the returned array, call again on an ndarray
         try:
             if isinstance(raw, np.ndarray) and raw.flags.writeable:
-                raw[...] = -1
+                raw[...] = 113 if raw.dtype.kind in "ub" else -1
             arg = np.arange(n)
             again = W.flip_amplitudes(arg)
             res["again"] = [int(x) for x in again]
@@ -1663,9 +1954,12 @@ def run_impl(c):
         return res
     if k == "load":
         import json
-        d = {"real": [float(unrat(x)) for x in c["real"]]}
+        def num(x):
+            f = unrat(x)
+            return int(f) if c.get("json_ints") and Fraction(f).denominator == 1 else float(f)
+        d = {"real": [num(x) for x in c["real"]]}
         if c["imag"] is not None:
-            d["imag"] = [float(unrat(x)) for x in c["imag"]]
+            d["imag"] = [num(x) for x in c["imag"]]
         fd, path = tempfile.mkstemp(suffix=".json", prefix="c12_")
         os.close(fd)
         fd2, path2 = tempfile.mkstemp(suffix=".json", prefix="c12_")
@@ -1715,7 +2009,7 @@ def run_impl(c):
 
 # ------------------------------------------------------------------ model requests / comparison
 def _strip_on(op):
-    return {kk: v for kk, v in op.items() if kk not in ("on", "np")}
+    return {kk: v for kk, v in op.items() if kk not in ("on", "np", "vty", "ity")}
 
 
 def _lineages(c, out):
@@ -2424,7 +2718,32 @@ def distribution(cases, outs):
                         j < len(prev_snaps) and st["snaps"][j]["exact"] != prev_snaps[j]["exact"] for j in sib):
                     sharing["accepted_assignments_showing_in_a_sibling"] += 1
             prev_snaps = st["snaps"]
-    return {"shared_storage": sharing,
+    types = {"constructor_entry_types": {}, "assigned_value_types": {}, "bind_value_types": {}, "index_types": {}, "typed_histories": 0,
+             "typed_ops_rejected": 0, "typed_ops_accepted": 0, "typed_constructor_refusals": 0}
+    for c, o in zip(cases, outs):
+        if c["kind"] != "ops":
+            continue
+        is_typed = bool(c.get("ty")) or any(op.get("vty") or op.get("ity") for op in c["ops"])
+        if not is_typed:
+            continue
+        types["typed_histories"] += 1
+        if c.get("ty"):
+            types["constructor_entry_types"][c["ty"]] = types["constructor_entry_types"].get(c["ty"], 0) + 1
+            if isinstance(o, dict) and isinstance(o.get("init"), str):
+                types["typed_constructor_refusals"] += 1
+        steps = o.get("steps", []) if isinstance(o, dict) and isinstance(o.get("init"), dict) else []
+        for j, op in enumerate(c["ops"]):
+            if op.get("vty"):
+                key = "bind_value_types" if op["op"] == "bind" else "assigned_value_types"
+                types[key][op["vty"]] = types[key].get(op["vty"], 0) + 1
+                if j < len(steps):
+                    types["typed_ops_accepted" if steps[j]["out"] == "ok" else "typed_ops_rejected"] += 1
+            if op.get("ity"):
+                types["index_types"][op["ity"]] = types["index_types"].get(op["ity"], 0) + 1
+    types["flip_argument_types"] = sorted({c.get("as", "list") for c in cases if c["kind"] == "flip"})
+    types["dicke_qubit_count_types"] = sorted({c.get("n_ty", "int") for c in cases if c["kind"] == "dicke"})
+    types["amplitude_files_with_integer_literals"] = sum(1 for c in cases if c["kind"] == "load" and c.get("json_ints"))
+    return {"shared_storage": sharing, "number_types": types,
             "states_within_1e-3_of_unit_sum_but_not_exact_after_accepted_op": near_states,
             "ops_rejected_on_such_states": near_rejected, "constructor_refusals_within_1e-3_of_unit_sum": near_ctor_rejected,
             "constructor_argument_kinds": containers,
